@@ -271,6 +271,9 @@ inductive MExpr where
   | map (e : MExpr)
   /-- `MatrixRefTensor::from(TensorRefMatrix::from(e)?)` -/
   | viaTensor (e : MExpr)
+  /-- the transposed view obtained through the tensor side:
+      `MatrixRefTensor::from(TensorAccess::from(TensorRefMatrix::from(e)?, [column, row]))` -/
+  | swapped (e : MExpr)
   deriving Repr, DecidableEq
 
 structure MViewU where
@@ -390,6 +393,23 @@ def MExpr.eval (A : Arith) : MExpr → Outcome (Except (Shape Bool) MViewU)
         match MView.ofTensor t with
         | .panic k => .panic k
         | .ok v => .ok (.ok ⟨v, src.uget⟩)
+  | .swapped e =>
+    match e.eval A with
+    | .panic k => .panic k
+    | .ok (.error s) => .ok (.error s)
+    | .ok (.ok src) =>
+      match tensorRefMatrixWithNames src.view true false with
+      | .panic k => .panic k
+      | .ok (.error s) => .ok (.error s)
+      | .ok (.ok t) =>
+        -- `TensorAccess::from(t, [column, row])` (panics on names that are not the tensor's)
+        match accessTryFrom t [false, true] with
+        | .panic k => .panic k
+        | .ok (.error _) => .panic .explicit
+        | .ok (.ok a) =>
+          match MView.ofTensor a with
+          | .panic k => .panic k
+          | .ok v => .ok (.ok ⟨v, fun row column => src.uget column row⟩)
 
 /-! ### `data_layout` and matrix equality -/
 
@@ -423,6 +443,20 @@ def MExpr.layout : MExpr → MLayout
     match t with
     | .linear true => .rowMajor
     | .linear false => .columnMajor
+    | .nonLinear => .other
+    | .other => .other
+  | .swapped e =>
+    -- `TensorRefMatrix` translates, `TensorAccess` passes the layout on unchanged, and
+    -- `MatrixRefTensor` compares it with the names of the *swapped* view shape: the matrix's
+    -- row name is now the second dimension
+    let t : TLayout2 :=
+      match e.layout with
+      | .rowMajor => .linear true
+      | .columnMajor => .linear false
+      | .other => .other
+    match t with
+    | .linear true => .columnMajor
+    | .linear false => .rowMajor
     | .nonLinear => .other
     | .other => .other
 
